@@ -404,7 +404,7 @@ class C12(Spec):
                  'and the declaration matrix are regenerated from the sources on every run and are what theorems are stated about; '
                  'white-box differential check of the model against the real library; '
                  'independent reference + before/after dump oracle in C under ASan/UBSan, risky calls probed in a forked child')
-    level_text = ('Theorems over the executable model lean/Cello/Fail.lean (65, no sorry): C12_failure_atomic — for every store of objects (Array, List, '
+    level_text = ('Theorems over the executable model lean/Cello/Fail.lean (66, no sorry): C12_failure_atomic — for every store of objects (Array, List, '
                   'heap and stack Tuple, Table, Tree, heap/stack/static String, Range, Slice, Zip, plain Int/Plain values), every object and every '
                   'operation outside the territories of the known findings, an operation that raises leaves the observable state of every object '
                   'unchanged (C12_failure_atomic_exact: the very same store, unless the object is a slot-less Table or a Slice); per type '
